@@ -799,3 +799,141 @@ Proof.
   - intros [Hin Hp]. apply pos_key_eligible; assumption.
   - intros (v & Hv & He & ->). split; [apply (HI id v I Hv He)|unfold eligible in He; lia].
 Qed.
+
+(* =====================  without any hypothesis on max_validators: nobody is in the set who should not be  ===================== *)
+Definition member_ok (s : staking) (id q : Z) : Prop :=
+  exists v, vals s !! id = Some v /\ v_jailed v = false /\ q = v_power v /\ 0 < q.
+
+Lemma member_ok_frame s s' id q : frame s s' -> member_ok s id q -> member_ok s' id q.
+Proof.
+  intros [FA FB] (v & Hv & Hj & Hq & Hp). subst q. destruct (FB id v Hv (power_pos_tokens v Hp)) as [v' Hv'].
+  destruct (FA id v' Hv') as (v0 & Hv0 & Hj' & Ht'). rewrite Hv in Hv0. inversion Hv0; subst v0.
+  exists v'. split; [exact Hv'|]. split; [congruence|]. unfold v_power in *. rewrite Ht'. auto.
+Qed.
+
+Lemma apply_loop_sound keys maxv : forall a a',
+  apply_loop keys maxv a = LDone a' ->
+  (forall p id, In (p, id) keys -> exists v, vals (stk (la_chain a)) !! id = Some v /\ v_jailed v = false /\ p = v_power v) ->
+  (forall p id, In (p, id) keys -> 0 <= p) ->
+  (forall id q, la_last a !! id = Some q -> last_pow (stk (la_chain a)) !! id = Some q) ->
+  (forall id q, last_pow (stk (la_chain a)) !! id = Some q -> la_last a !! id = None -> member_ok (stk (la_chain a)) id q) ->
+  (forall id q, la_last a' !! id = Some q -> last_pow (stk (la_chain a')) !! id = Some q) /\
+  (forall id q, last_pow (stk (la_chain a')) !! id = Some q -> la_last a' !! id = None -> member_ok (stk (la_chain a')) id q).
+Proof.
+  induction keys as [|[p id] ks IH]; intros a a' Hrun K1 Knn Hagree Hgood; cbn [apply_loop] in Hrun; [inversion Hrun; subst; auto|].
+  destruct (maxv <=? la_count a); [inversion Hrun; subst; auto|].
+  destruct (K1 p id (or_introl eq_refl)) as (v & Hv & Hj & Hp). subst p. rewrite Hv, Hj in Hrun.
+  destruct (Z.eqb_spec (v_power v) 0) as [Hz|Hnz]; [inversion Hrun; subst; auto|].
+  assert (Hpos : 0 < v_power v) by (specialize (Knn (v_power v) id (or_introl eq_refl)); lia).
+  set (r := match v_status v with Bonded => (la_chain a, v, 0) | _ => let '(c', v') := bond_validator (la_chain a) id v in (c', v', v_tokens v') end) in Hrun.
+  assert (Hr : exists c1 v1 moved, r = (c1, v1, moved) /\ v_power v1 = v_power v /\
+            (vals (stk c1) = vals (stk (la_chain a)) \/ vals (stk c1) = <[id := set_status v Bonded]> (vals (stk (la_chain a)))) /\
+            last_pow (stk c1) = last_pow (stk (la_chain a))).
+  { subst r. pose proof (bond_validator_vals (la_chain a) id v) as (H1 & H2 & H3).
+    destruct (v_status v).
+    - destruct (bond_validator (la_chain a) id v) as [c' v'']. cbn in *. subst v''. do 3 eexists. split; [reflexivity|]. split; [reflexivity|]. split; [right; exact H1|exact H3].
+    - destruct (bond_validator (la_chain a) id v) as [c' v'']. cbn in *. subst v''. do 3 eexists. split; [reflexivity|]. split; [reflexivity|]. split; [right; exact H1|exact H3].
+    - do 3 eexists. split; [reflexivity|]. split; [reflexivity|]. split; [left; reflexivity|reflexivity]. }
+  destruct Hr as (c1 & v1 & moved & Er & Hp1 & Hvals1 & Hlp1). rewrite Er in Hrun. cbn zeta in Hrun.
+  set (changed := match la_last a !! id with Some old => negb (old =? v_power v1) | None => true end) in Hrun.
+  set (c2 := if changed then with_stk c1 (st_last_pow (stk c1) (<[id := v_power v1]> (last_pow (stk c1)))) else c1) in Hrun.
+  assert (Hvals2 : vals (stk c2) = vals (stk c1)) by (subst c2; destruct changed; reflexivity).
+  assert (Hlp2 : last_pow (stk c2) !! id = Some (v_power v) /\ forall j, j <> id -> last_pow (stk c2) !! j = last_pow (stk (la_chain a)) !! j).
+  { subst c2 changed. destruct (la_last a !! id) as [old|] eqn:El.
+    - destruct (Z.eqb_spec old (v_power v1)) as [->|Hne]; cbn [negb].
+      + rewrite Hlp1. split; [rewrite <- Hp1; apply Hagree; exact El|auto].
+      + cbn. rewrite Hlp1, Hp1. split; [apply lookup_insert|intros j Hjne; apply lookup_insert_ne; auto].
+    - cbn. rewrite Hlp1, Hp1. split; [apply lookup_insert|intros j Hjne; apply lookup_insert_ne; auto]. }
+  destruct Hlp2 as [Hlp2 Hlp2'].
+  assert (Hframe1 : frame (stk (la_chain a)) (stk c2)).
+  { destruct Hvals1 as [E|E]; [apply frame_vals_eq; congruence|]. eapply frame_insert; [exact Hv|rewrite Hvals2; exact E|reflexivity|reflexivity]. }
+  match type of Hrun with apply_loop ks maxv ?x = _ => set (a1 := x) in Hrun end.
+  apply (IH a1 a' Hrun).
+  - intros q j Hin. destruct (K1 q j (or_intror Hin)) as (w & Hw & Hjw & Hq). cbn [a1 la_chain]. rewrite Hvals2.
+    destruct Hvals1 as [E|E]; rewrite E; [eauto|]. destruct (decide (j = id)) as [->|Hne].
+    + rewrite lookup_insert. rewrite Hv in Hw. inversion Hw; subst w. exists (set_status v Bonded). auto.
+    + rewrite lookup_insert_ne by auto. eauto.
+  - intros q j Hin. apply (Knn q j). right; exact Hin.
+  - cbn [a1 la_last la_chain]. intros j q Hl. apply lookup_delete_Some in Hl as [Hne Hl]. rewrite Hlp2' by auto. apply Hagree; exact Hl.
+  - cbn [a1 la_last la_chain]. intros j q Hl Hnone. destruct (decide (j = id)) as [->|Hne].
+    + rewrite Hlp2 in Hl. inversion Hl; subst q. eapply member_ok_frame; [exact Hframe1|]. exists v. auto.
+    + rewrite Hlp2' in Hl by auto. rewrite lookup_delete_ne in Hnone by auto. eapply member_ok_frame; [exact Hframe1|]. apply Hgood; assumption.
+Qed.
+
+Theorem apply_valset_updates_sound c c' upd :
+  CI c -> apply_valset_updates c = EBOk c' upd ->
+  forall id q, last_pow (stk c') !! id = Some q -> member_ok (stk c') id q.
+Proof.
+  intros [HS HP] Hrun. unfold apply_valset_updates in Hrun.
+  set (keys := sort_by pidx_le (pidx (stk c))) in *.
+  set (a0 := {| la_chain := c; la_last := last_pow (stk c); la_upd := []; la_count := 0; la_total := 0; la_to_bonded := 0 |}) in *.
+  destruct (apply_loop keys _ a0) as [a1|] eqn:E1; [|discriminate].
+  destruct (unbond_loop _ a1) as [a2|] eqn:E2; [|discriminate].
+  assert (Hperm : forall x, In x keys -> In x (pidx (stk c))).
+  { intros x H. apply (Permutation_in _ (sort_by_perm pidx_le _)) in H. exact H. }
+  destruct (apply_loop_sound keys _ a0 a1 E1) as (R1 & R2).
+  { intros p id Hin. apply Hperm in Hin. apply (si_sound _ HS). exact Hin. }
+  { intros p id Hin. apply Hperm in Hin. destruct (si_sound _ HS p id Hin) as (v & Hv & _ & ->). apply tokens_to_power_nonneg. eapply si_tok; eauto. }
+  { unfold a0; cbn [la_last la_chain]. auto. }
+  { unfold a0; cbn [la_last la_chain]. intros id q H1 H2. congruence. }
+  destruct (unbond_loop_last _ a1 a2 E2) as (U1 & U2).
+  assert (Hfin : forall id q, last_pow (stk (la_chain a2)) !! id = Some q -> member_ok (stk (la_chain a2)) id q).
+  { intros id q Hl. rewrite U1 in Hl. destruct (existsb (Z.eqb id) (sorted_keys (la_last a1))) eqn:Ex; [discriminate|].
+    eapply member_ok_frame; [exact U2|]. apply R2; [exact Hl|].
+    destruct (la_last a1 !! id) as [x|] eqn:El; [|reflexivity]. assert (Hs : is_Some (la_last a1 !! id)) by (rewrite El; eauto). apply in_sorted_keys in Hs. congruence. }
+  destruct (if la_to_bonded a2 =? 0 then _ else _) as [b|]; [|discriminate]. inversion Hrun; subst. clear Hrun.
+  destruct (la_upd a2); cbn; exact Hfin.
+Qed.
+
+Theorem staking_end_block_sound c c' upd :
+  CI c -> staking_end_block c = EBOk c' upd ->
+  forall id q, last_pow (stk c') !! id = Some q -> member_ok (stk c') id q.
+Proof.
+  intros HCI Hrun. unfold staking_end_block in Hrun. destruct (apply_valset_updates c) as [c1 u|] eqn:E1; [|discriminate].
+  destruct (unbond_all_mature c1) as [c2|] eqn:E2; [|discriminate]. inversion Hrun; subst c2 u. clear Hrun.
+  unfold unbond_all_mature in E2. apply mature_slots_frame in E2 as (L2 & P2 & F2).
+  intros id q Hl. rewrite L2 in Hl. eapply member_ok_frame; [exact F2|]. eapply apply_valset_updates_sound; eauto.
+Qed.
+
+Definition members_ok (s : staking) : Prop := forall id q, last_pow s !! id = Some q -> member_ok s id q.
+
+Lemma init_world_sound g : wf_genesis g -> w_halted (init_world g) = None -> members_ok (stk (w_chain (init_world g))).
+Proof.
+  intros Hwf. pose proof (genesis_chain_CI g Hwf) as HC. unfold init_world. fold (genesis_chain g).
+  change (match apply_valset_updates (genesis_chain g) with
+          | EBOk c1 upd => _ | EBHalt e => _ end) with
+    (match apply_valset_updates (genesis_chain g) with
+     | EBHalt e => {| w_chain := genesis_chain g; w_comet := {| c_prev := None; c_cur := ∅; c_next := ∅ |}; w_halted := Some (HEndBlock e) |}
+     | EBOk c1 upd =>
+       {| w_chain := with_poa c1 {| pending := []; cached_power := last_total (stk c1); abs_changed := 0 |};
+          w_comet := {| c_prev := None; c_cur := apply_updates ∅ upd; c_next := apply_updates ∅ upd |}; w_halted := None |}
+     end).
+  destruct (apply_valset_updates (genesis_chain g)) as [c1 upd|e] eqn:E; cbn; [|discriminate]. intros _.
+  exact (apply_valset_updates_sound _ _ _ HC E).
+Qed.
+
+Lemma run_block_sound w b :
+  CI (w_chain w) -> (w_halted w = None -> members_ok (stk (w_chain w))) ->
+  let w' := fst (run_block w b) in w_halted w' = None -> members_ok (stk (w_chain w')).
+Proof.
+  intros HCI Hset. unfold run_block. destruct (w_halted w) eqn:Hh; [cbn; rewrite Hh; discriminate|].
+  set (c0 := with_clock (w_chain w) (height (w_chain w) + 1) (now (w_chain w) + b_dt b)).
+  assert (H0 : CI c0) by (apply CI_clock; exact HCI).
+  destruct (begin_block c0 _ (b_absent b)) as [c1|e] eqn:Eb; [|cbn; discriminate].
+  pose proof (begin_block_CI _ _ _ _ H0 Eb) as H1.
+  pose proof (deliver_txs_CI (b_txs b) c1 H1) as H2.
+  destruct (deliver_txs c1 (b_txs b)) as [c2 outs]. cbn in H2.
+  destruct (staking_end_block c2) as [c3 upd|e] eqn:Ee; [|cbn; discriminate].
+  pose proof (staking_end_block_sound _ _ _ H2 Ee) as Hs.
+  destruct (comet_apply _ upd); cbn; [intros _; exact Hs|discriminate].
+Qed.
+
+(* In every reachable running state — whatever max_validators is — every member of the last validator set is a
+   validator that is not jailed, at the positive power of its tokens. *)
+Theorem reachable_members_ok g bs :
+  wf_genesis g -> let w := run_world (init_world g) bs in w_halted w = None -> members_ok (stk (w_chain w)).
+Proof.
+  intros Hwf. pose proof (init_world_CI g Hwf) as HC. pose proof (init_world_sound g Hwf) as HS.
+  revert HC HS. generalize (init_world g). induction bs as [|b bs IH]; cbn; intros w HC HS; [exact HS|].
+  apply IH; [apply run_block_CI; exact HC|apply run_block_sound; assumption].
+Qed.
